@@ -244,6 +244,23 @@ func checkC14(e *Env) {
 					send(plan.Op{Fn: "chk", L: 2, S: hxs(strings.Join(w, " "))}, "frame-with-long-token")
 				}
 			}
+			// sentences of 10..27 words in which one or two separators are other space-like
+			// code points (raw and normalised token counts differ)
+			for k := 10; k <= 27; k++ {
+				for si, sp := range []string{"\u00a0", "\u2003", "\u202f", "\u3000", "\u2009", "\t", "\n", "\u2028"} {
+					sl := []int{2, 5, 7, 0}[(k+si)%4]
+					w := make([]string, k)
+					for i := range w {
+						w[i] = e.Model.List[sl][1+r.Intn(2047)]
+					}
+					for _, pos := range []int{1, k / 2, k - 1} {
+						s := strings.Join(w[:pos], " ") + sp + strings.Join(w[pos:], " ")
+						send(plan.Op{Fn: "chk", L: int64(sl), S: hxs(s)}, "one-space-like-separator")
+					}
+					s2 := strings.Join(w[:2], sp) + " " + strings.Join(w[2:k-1], " ") + sp + w[k-1]
+					send(plan.Op{Fn: "val", L: int64(sl), S: hxs(s2)}, "two-space-like-separators")
+				}
+			}
 			// hostile strings for every string-taking function
 			for i, hs := range e.hostileStringShapes(maxStr) {
 				ls := []int64{int64(i % ref.NLang), 2, lv[i%len(lv)]}
